@@ -255,6 +255,19 @@ def big_case(seed, shape):
     mem, modes = cartgen.memory_from_seed(b'\x02' + seed)
     if shape in ('lines', 'oneline'):
         code = c15.big_code(seed[:2], shape)
+    elif shape == 'line_counts':
+        # exactly 2^k (and neighbouring) numbers of code lines, with and without a final newline
+        n = (255, 256, 257, 512, 1024, 128, 511, 513)[seed[0] % 8]
+        code = b''.join(b'v%d=%d\n' % (i % 50, i) for i in range(n))
+        if seed[2] % 3 == 0:
+            code = code[:-1]
+    elif shape == 'header_like':
+        # lines that look like - but by the format's ASCII word rule are not - section headers
+        lines = list(c15.HEADER_LIKE)
+        k = seed[0] % len(lines)
+        pick = [lines[(k + 7 * i) % len(lines)] for i in range(6)]
+        code = b's=[[\n' + b'\n'.join(pick[:3]) + b'\n]]\n--[[\n' + b'\n'.join(pick[3:]) + b'\n]]\nt={\n' + \
+            c15.HEADER_LIKE[seed[1] % 128] + b',\n}\n'          # (a glyph identifier alone on its line)
     elif shape == 'over_chars':
         line = b'-- ' + bytes(0x61 + b % 26 for b in expand(b'oc' + seed, 60)) + b'\n'
         code = b'x=1\n' + line * (65536 // len(line) + 1 + seed[0] % 3)
@@ -264,13 +277,13 @@ def big_case(seed, shape):
             'cstats': {}}
 
 
-BIG_SHAPES = ('lines', 'oneline', 'over_chars', 'over_tokens')
+BIG_SHAPES = ('lines', 'oneline', 'over_chars', 'over_tokens', 'line_counts', 'header_like')
 
 
 def part_big(ctx):
     """One shape per shard; every example runs the shape under a plain and three awkward file names (one with
     braces, one with a percent sign, one drawn), alternating file / cli / stream."""
-    shape = BIG_SHAPES[ctx.shard % 4]
+    shape = BIG_SHAPES[ctx.shard % len(BIG_SHAPES)]
 
     def body(v):
         seed, k = v
@@ -283,7 +296,8 @@ def part_big(ctx):
                            {'big': shape, 'code_chars': len(c['code']), 'via': via, 'file_name': fname + '.p8'},
                            ['big_' + shape, 'via_' + via] + (['awkward_file_name'] if fname != 'cart' else []))
     ctx.hyp('big', st.tuples(st.binary(min_size=4, max_size=4), st.integers(0, 35)), body,
-            max_examples=(1 if shape == 'over_tokens' else 2) if ctx.quick else 6, shrink=False)
+            max_examples=(1 if shape == 'over_tokens' else 8 if shape in ('line_counts', 'header_like') else 2) if ctx.quick else 12,
+            shrink=False)
 
 
 def part_stream(ctx):
@@ -298,8 +312,8 @@ def part_file(ctx):
 
 def parts(tier):
     if tier == 'quick':
-        return [('stream', part_stream, 3), ('file', part_file, 1), ('big', part_big, 4)]
-    return [('stream', part_stream, 12), ('file', part_file, 2), ('big', part_big, 8)]
+        return [('stream', part_stream, 3), ('file', part_file, 1), ('big', part_big, 6)]
+    return [('stream', part_stream, 12), ('file', part_file, 2), ('big', part_big, 12)]
 
 
 def replay(case):
@@ -322,7 +336,7 @@ def replay(case):
 def vacuity(total, tier):
     msgs = []
     for lab in ('label', 'no_label', 'no_final_newline', 'via_cli', 'via_file', 'loaded_then_edited', 'untouched_sfx', 'big_oneline', 'big_lines',
-                'big_over_chars', 'big_over_tokens', 'awkward_file_name'):
+                'big_over_chars', 'big_over_tokens', 'big_line_counts', 'big_header_like', 'awkward_file_name'):
         if total.classes.get(lab, 0) < 3:
             msgs.append('class %s seen %d times' % (lab, total.classes.get(lab, 0)))
     return msgs
